@@ -66,33 +66,35 @@ Theorem C19_errors_touch_nothing : forall root cwd path s e root',
 Proof. exact get_project_err_unchanged. Qed.
 Print Assumptions C19_errors_touch_nothing.
 
-(* ---- get_job ------------------------------------------------------------------------------
-   [segs comps] is the absolute path string "/c1/c2/…".  Layout hypothesis of the property on the
-   path: i is id-like (exactly 32 hex), no later component contains a 32-hex run.  Then the job
-   id is the INNERMOST id-like component, the job path is /pre/i and the project is the one
-   get_project finds from /pre/i/.. (above the job directory, never inside it). *)
+(* ---- get_job (since fix 6e2adfe: component-wise) --------------------------------------------
+   [abs_of comps] is the absolute path string "/c1/c2/…".  i is a component that is exactly a job
+   id (32 characters 0-9a-f), no later component is one.  Names that merely CONTAIN 32 hex
+   characters (64-hex, 40-hex, run_<md5>, <id>.bak) are ordinary names here.  Then the job id is
+   the INNERMOST id component, the job path is /pre/i and the project is the one get_project finds
+   from /pre/i/.. (above the job directory, never inside it). *)
 Theorem C19_get_job_innermost : forall root cwd path pre i post,
-  abspath cwd path = segs (pre ++ i :: post) ->
-  is_id i = true -> (forall c, In c post -> has_run c = false) ->
+  abspath cwd path = abs_of (pre ++ i :: post) -> forallb cleanb (pre ++ i :: post) = true ->
+  is_id i = true -> forallb (fun c => negb (is_id c)) post = true ->
   os_exists root cwd (abspath cwd path) = true ->
   get_job root cwd path =
-    match get_project root cwd (path_join (segs (pre ++ [i])) s_pardir) true with
+    match get_project root cwd (path_join (abs_of (pre ++ [i])) s_pardir) true with
     | (Ok pr, root') => (Ok (pr, i), root')
     | (Err x, root') => (Err x, root')
     end.
 Proof. exact get_job_innermost. Qed.
 Print Assumptions C19_get_job_innermost.
 
-(* the regular expression's last match is the innermost id-like component, whatever precedes it
-   (also other ids: a project nested in a job directory) *)
-Theorem C19_last_match_is_innermost : forall pre i post,
-  is_id i = true -> (forall c, In c post -> has_run c = false) ->
-  last_id_end (segs (pre ++ i :: post)) = Some (length (segs (pre ++ [i]))).
-Proof. exact last_id_innermost. Qed.
-Print Assumptions C19_last_match_is_innermost.
+(* the scan from the end of path.split("/") stops at the innermost id component, whatever precedes
+   it (other ids: a project nested in a job directory) and whatever non-id names follow it *)
+Theorem C19_innermost_id_component : forall rpost i rb,
+  is_id i = true -> forallb (fun c => negb (is_id c)) rpost = true ->
+  innermost_idcomp (rpost ++ i :: rb) = Some (i, i :: rb).
+Proof. exact innermost_idcomp_spec. Qed.
+Print Assumptions C19_innermost_id_component.
 
 Theorem C19_get_job_lookup_error_no_id : forall root cwd path comps,
-  abspath cwd path = segs comps -> (forall c, In c comps -> has_run c = false) ->
+  abspath cwd path = abs_of comps -> forallb cleanb comps = true ->
+  forallb (fun c => negb (is_id c)) comps = true ->
   get_job root cwd path = (Err ELookupError, root).
 Proof. exact get_job_no_id. Qed.
 Print Assumptions C19_get_job_lookup_error_no_id.
